@@ -13,39 +13,41 @@ From W.proofs Require Import RefUpdate_proofs.
 Import ListNotations.
 Local Open Scope N_scope.
 
-(** FULL STATEMENT (kept visible; it is REFUTED for the faithful model, see C10_forward_only_refuted):
-      forall g ia sk st ops, IsAncSound g ia -> SeekSound g sk ->
-        Forall (trans_ok g) (snd (run_ops g ia sk st ops)).
-    i.e. in every history of fetch / push / merge / pull operations over any commit graph, every ref
-    transition old -> new satisfies: not forced => old is an ancestor-or-self of new; an existing tag
-    gets a different value only with force.
-
-    Proved under [guards_hold]: for each pull whose branch does not exist yet, the fetch half of that
-    pull does not itself create refs/heads/BRANCH (no refspec of the pull writes into the pulled branch). *)
-Theorem C10_forward_only_partial : forall g ia sk,
+(** In every history of fetch / push / merge / pull operations over any commit graph, every ref write
+    old -> new satisfies: not forced => old is an ancestor-or-self of new; an existing tag gets a
+    different value only with force.  (Creations and deletions are not moves.) *)
+Theorem C10_forward_only : forall g ia sk,
   IsAncSound g ia -> SeekSound g sk ->
-  forall st ops, guards_hold g ia sk st ops ->
-  Forall (trans_ok g) (snd (run_ops g ia sk st ops)).
+  forall st ops, Forall (trans_ok g) (snd (run_ops g ia sk st ops)).
 Proof. exact forward_only_history. Qed.
-Print Assumptions C10_forward_only_partial.
+Print Assumptions C10_forward_only.
 
-(** what the guard excludes: `wrgl pull b origin 'refs/heads/*:refs/heads/*' refs/heads/x:refs/remotes/origin/x`
-    with no local branch b: the fetch creates heads/b, then pull's branch creation overwrites it, unforced,
-    with the unrelated heads/x.  Reproduced on the Go code (corpus/C10/pull-new-branch-glob.case). *)
-Theorem C10_forward_only_refuted :
-  exists g st o, ~ Forall (trans_ok g) (r_trace (step g (is_ancestor g) (seek_spec g) st o)).
-Proof. exact pull_new_branch_refuted. Qed.
-Print Assumptions C10_forward_only_refuted.
-
-(** the same for the executable model, no premise left but the guard *)
+(** the same for the executable model: no premise left *)
 Theorem C10_forward_only_model : forall g st ops,
-  guards_hold g (is_ancestor g) (seek_spec g) st ops ->
   Forall (trans_ok g) (snd (run_ops g (is_ancestor g) (seek_spec g) st ops)).
 Proof. exact forward_only_instance. Qed.
 Print Assumptions C10_forward_only_model.
 
-(** fetch, push and merge need no guard: each single operation only makes legal moves, logs them, and keeps
-    both log stores faithful *)
+(** BEFORE fix 43d74b6 (model variant [pull_step_prefix]) the statement was false:
+    `wrgl pull b origin 'refs/heads/*:refs/heads/*' refs/heads/x:refs/remotes/origin/x` with no local
+    branch b: the fetch half creates heads/b, then pull's branch creation overwrites it, unforced, with the
+    unrelated heads/x (corpus/C10/pull-new-branch-glob.case is the regression case). *)
+Theorem C10_forward_only_prefix_refuted :
+  exists g st b specs gf mode m,
+    ~ Forall (trans_ok g) (r_trace (pull_step_prefix g (is_ancestor g) (seek_spec g) st b specs gf mode m)).
+Proof. exact pull_new_branch_refuted. Qed.
+Print Assumptions C10_forward_only_prefix_refuted.
+
+(** ... and held only under the guard "the fetch half does not create the pulled branch" *)
+Theorem C10_forward_only_prefix_partial : forall g ia sk,
+  IsAncSound g ia -> SeekSound g sk ->
+  forall st branch specs gf mode m,
+  pull_guard g ia st branch specs gf ->
+  res_ok g st (pull_step_prefix g ia sk st branch specs gf mode m).
+Proof. exact pull_prefix_guarded. Qed.
+Print Assumptions C10_forward_only_prefix_partial.
+
+(** each single operation only makes legal moves, logs them, and keeps both log stores faithful *)
 Theorem C10_fetch_ok : forall g ia st specs gforce, IsAncSound g ia ->
   res_ok g st (fetch_step g ia st specs gforce).
 Proof. intros g ia st specs gforce H. exact (fetch_step_ok g ia H st specs gforce). Qed.
@@ -60,6 +62,11 @@ Theorem C10_merge_ok : forall g sk st branch others mode m, SeekSound g sk ->
   res_ok g st (merge_step g sk st branch others mode m).
 Proof. intros g sk st branch others mode m H. exact (merge_step_ok g sk H st branch others mode m). Qed.
 Print Assumptions C10_merge_ok.
+
+Theorem C10_pull_ok : forall g ia sk st branch specs gf mode m, IsAncSound g ia -> SeekSound g sk ->
+  res_ok g st (pull_step g ia sk st branch specs gf mode m).
+Proof. intros g ia sk st branch specs gf mode m H1 H2. exact (pull_step_ok g ia sk H1 H2 st branch specs gf mode m). Qed.
+Print Assumptions C10_pull_ok.
 
 (** a rejected (or up-to-date) update leaves the whole ref store as it was *)
 Theorem C10_rejected_unchanged : forall ia gforce s tr nrej it,
@@ -124,7 +131,7 @@ Print Assumptions C10_log_write.
 
 (** LogFaithful over histories, and every local update of the history is found in its ref's log *)
 Theorem C10_log_true : forall g ia sk,
-  IsAncSound g ia -> SeekSound g sk -> forall st ops, guards_hold g ia sk st ops ->
+  IsAncSound g ia -> SeekSound g sk -> forall st ops,
   (LogFaithful (lrefs st) -> LogFaithful (lrefs (fst (run_ops g ia sk st ops)))) /\
   (LogFaithful (rrefs st) -> LogFaithful (rrefs (fst (run_ops g ia sk st ops)))) /\
   Forall (logged (lrefs (fst (run_ops g ia sk st ops)))) (snd (run_ops g ia sk st ops)).
@@ -140,8 +147,9 @@ Theorem C10_seek_spec_sound : forall g, SeekSound g (seek_spec g).
 Proof. exact seek_spec_sound. Qed.
 Print Assumptions C10_seek_spec_sound.
 
-(** non-vacuity: a five-operation history (fetch, rejected push, merge, pull, push) meets the guards *)
-Theorem C10_guards_example :
-  guards_hold ex_graph (is_ancestor ex_graph) (seek_spec ex_graph) ex_state ex_ops.
-Proof. exact ex_guards. Qed.
-Print Assumptions C10_guards_example.
+(** non-vacuity: a five-operation history (fetch, rejected push, merge creating a merge commit, pull, push)
+    on a concrete graph performs three ref moves *)
+Theorem C10_history_example :
+  length (snd (run_ops ex_graph (is_ancestor ex_graph) (seek_spec ex_graph) ex_state ex_ops)) = 3%nat.
+Proof. exact ex_trace_nonempty. Qed.
+Print Assumptions C10_history_example.
